@@ -322,9 +322,12 @@ fn proplist_checks(ctx: &Ctx, rng: &mut Rng) {
         let mut elems: Vec<OwnedTerm> = Vec::new();
         let mut expect: Vec<(Val, Val)> = Vec::new();
         for i in 0..n {
-            let key = match rng.below(4) {
+            let key = match rng.below(8) {
                 0 => OwnedTerm::Binary(format!("b{}", i).into_bytes()),
                 1 => OwnedTerm::Integer(i as i64 * 1000 + 3),
+                2 => OwnedTerm::Float(i as f64 + 0.5),
+                3 => OwnedTerm::Tuple(vec![OwnedTerm::atom("x"), OwnedTerm::Integer(i as i64)]),
+                4 => OwnedTerm::Integer(i64::MAX - i as i64),
                 _ => OwnedTerm::atom(format!("k{}", i)),
             };
             if keys.iter().any(|k| val_of(k).same(&val_of(&key))) {
@@ -462,7 +465,17 @@ pub fn run(ctx: &Ctx) {
         roundtrip(ctx, &r, rc);
         mutations(ctx, &mut rng, &r);
         let set = ElixirMapSet::from_values((0..rng.below(5)).map(|_| member(&mut rng)).collect::<Vec<_>>());
-        roundtrip(ctx, &set, if set.is_empty() { "empty" } else { "members" });
+        let twins = |members: &[OwnedTerm]| {
+            let vs: Vec<Val> = members.iter().map(val_of).collect();
+            vs.iter().enumerate().any(|(i, a)| vs[i + 1..].iter().any(|b| !a.same(b) && crate::refmodel::val::erl_eq(a, b)))
+        };
+        let members: Vec<OwnedTerm> = set.iter().cloned().collect();
+        roundtrip(ctx, &set, if set.is_empty() { "empty" } else if twins(&members) { "members:int~float-twins" } else { "members" });
+        if i == 0 {
+            // members that are distinct in Elixir (===) but numerically equal: the term's map cannot hold both keys
+            let tw = ElixirMapSet::from_values(vec![OwnedTerm::Integer(1), OwnedTerm::Float(1.0), OwnedTerm::atom("x")]);
+            roundtrip(ctx, &tw, "members:int~float-twins");
+        }
         let year = *rng.pick(&[i32::MIN, -1, 0, 1, 1970, 2024, 9999, 10000, i32::MAX]);
         let d = ElixirDate::new(year, *rng.pick(u8s), *rng.pick(u8s));
         let yc = if year == i32::MIN || year == i32::MAX { "year-extreme" } else { "year" };
